@@ -172,9 +172,27 @@ def race_cases(ctx):
                     scen.append((10, running, hop, op, q))
     cases = []
     if ctx.tier == "thorough":
+        # complete: every distinct interleaving of the two threads over the first 14 scheduling decisions, each ONCE (depth-first over
+        # the decisions at which both threads were runnable; a schedule vector that differs only where one thread could not run
+        # anyway gives the same interleaving and is not run again)
         for s in scen:
-            for bits in itertools.product((0, 1), repeat=14):
-                cases.append(s + (list(bits),))
+            seen = set()
+            stack = [[]]
+            while stack:
+                prefix = stack.pop()
+                sched = prefix + [0] * (14 - len(prefix))
+                ctx.in_flight = s + (sched,)
+                SD.run_one(*(s + (sched,)))
+                ch = list(SD.run_one.last_choices)
+                key = tuple(c[0] for c in ch)
+                if key in seen:
+                    continue
+                seen.add(key)
+                cases.append(s + (sched,))
+                for i in range(len(prefix), len(ch)):
+                    if ch[i][1]:
+                        stack.append([c[0] for c in ch[:i]] + [1 - ch[i][0]])
+            ctx.count("interleavings:%s:%s" % (s[3][0], "hop" if s[2] else "fix"), len(seen))
     else:
         for s in scen:
             for _ in range(24):
@@ -243,5 +261,5 @@ def run(ctx):
     ctx.count("schedules", len(cases))
     ctx.extra["rule"] = ("(1) BTS+MS sessions: arrivals (frame numbers -2..+5 around the clock, wrong versions, truncated), ticks with gaps, POWERON/POWEROFF/SETFORMAT, every sixth session across the hyperframe wrap; "
                          "(2) one arrival (same / past / future frame) or POWEROFF or POWERON racing one tick on a transceiver with 0/1/4 queued bursts, fixed tuning or hopping, running or not: "
-                         "thorough = all 16384 schedule prefixes of length 14 per scenario (complete: the two threads have at most 14 steps in total), quick = 25 per scenario; "
+                         "thorough = every distinct interleaving of the two threads over the first 14 scheduling decisions per scenario, each once (depth-first over the decisions at which both threads were runnable: complete, the threads have at most 14 steps in total), quick = 25 schedule vectors per scenario; "
                          "distinct_nontrivial = distinct outcome classes")
